@@ -144,7 +144,8 @@ fn pairs_of(op: &Value, cx: &mut Ctx, ev: &mut Map<String, Value>) -> Vec<(Item,
         for i in 0..cnt {
             let r = gen_rank(pat, i, cnt, &mut st);
             let pre = g["prefix"].as_str().unwrap_or("k");
-            v.push((Item::new(&format!("{}{}", pre, i), 0), Pri::new_raw(r * 1000 + (i as i64 % 1000), 0)));
+            let fine = match pat { "asc" => i as i64, "desc" => -(i as i64), "const" => 0, _ => r * 1000 + (i as i64 % 1000) };
+            v.push((Item::new(&format!("{}{}", pre, i), 0), Pri::new_raw(fine, 0)));
         }
         ev.insert("m".into(), json!(cnt));
         ev.insert("pairs".into(), json!([]));
@@ -1070,6 +1071,24 @@ impl<W: Write> Interp<W> {
         }
     }
 
+    /// every queue the operation uses (other than the one it creates) exists
+    fn targets_exist(&self, op: &Value) -> bool {
+        let name = s(op, "op");
+        let creates = matches!(name, "new" | "from_vec" | "from_iter" | "de" | "de_tokens" | "roundtrip" | "clone" | "balance");
+        let q = n(op, "q");
+        if !creates && !self.qs.contains_key(&q) {
+            return false;
+        }
+        for f in ["src", "o"] {
+            if let Some(x) = op.get(f).and_then(|v| v.as_i64()) {
+                if !self.qs.contains_key(&x) {
+                    return false;
+                }
+            }
+        }
+        true
+    }
+
     fn witness(&mut self, qid: i64, wit: &[String]) {
         let kind = match self.qs.get(&qid) {
             Some(q) => q.kind(),
@@ -1126,6 +1145,9 @@ impl<W: Write> Interp<W> {
             self.exec(&json!({"op": "new", "q": 0}));
         }
         for op in steps {
+            if !self.targets_exist(op) {
+                break;
+            }
             self.exec(op);
             if witsteps {
                 self.witness(n(op, "q"), &wit);
@@ -1145,6 +1167,9 @@ impl<W: Write> Interp<W> {
                     let mut op = op.clone();
                     if op.get("q").is_none() {
                         op["q"] = json!(1);
+                    }
+                    if !self.targets_exist(&op) {
+                        break; // a creation failed (error or panic, already recorded): nothing to continue on
                     }
                     self.exec(&op);
                 }
